@@ -63,6 +63,9 @@ func verifyWrittenFrame(f, payload []byte, dst, src *net.UDPAddr) (what, class s
 	if f[6]&0x3f != 0 || f[7] != 0 {
 		return "fragment offset / more-fragments set", "C18/write-layout", false
 	}
+	if f[8] == 0 {
+		return "TTL 0: the frame would be discarded by the first receiver", "C18/write-layout", false
+	}
 	if f[9] != 17 {
 		return fmt.Sprintf("protocol %d", f[9]), "C18/write-layout", false
 	}
